@@ -14,7 +14,7 @@ Not decided: behaviour of user-supplied policies; end-to-end frame counts.
 from ..inline import inline_view
 from ..dataflow import Dataflow, adt_of_type
 from ..mir import AnchorLost
-from ..util import df_of, in_set, uses_of_local, backward_slice
+from ..util import df_of, dj_of, in_set, uses_of_local, backward_slice
 
 TRAIT = "scylla::policies::retry::retry_policy::RetrySession"
 DECISION = "scylla::policies::retry::retry_policy::RetryDecision"
@@ -144,18 +144,31 @@ def r1_r2_r3(ctx, facts):
             if not (variants & RETRY):
                 continue
             n_retry += 1
-            idem = st.get(("val", (ri, ("is_idempotent",))))
-            idem_true = idem is not None and idem[0] == "in" and idem[1] <= {1} and len(idem[1]) == 1
-            classes = error_classes(df, st, ri)
-            safe = is_safe(classes)
+            # per disjunctive state (a gate such as `let ok = info.is_idempotent && other; if ok {..}` keeps its correlation with the
+            # field only there; the joined state forgets it)
+            djf = dj_of(b, facts)
+            dsts = (djf.states_before_stmt(bb, j) if j is not None else djf.states_before_stmt(bb, len(b.stmts(bb)))) or [st]
+            classes, idem_true, safe, okser = set(), True, True, True
+            for dst in dsts:
+                idem = dst.get(("val", (ri, ("is_idempotent",))))
+                it = idem is not None and idem[0] == "in" and idem[1] <= {1} and len(idem[1]) == 1
+                cl = error_classes(djf, dst, ri)
+                classes |= cl
+                sf = is_safe(cl)
+                if not (it or sf):
+                    idem_true = idem_true and it
+                    safe = safe and sf
+                ser = [k for k in dst if k[0] == "call" and b.term(k[1])[1].get("def", "").endswith("Consistency::is_serial")]
+                if not any(dst[k][0] == "in" and dst[k][1] == frozenset([0]) for k in ser):
+                    okser = False
+            all_ok = all(((lambda idem: idem is not None and idem[0] == "in" and idem[1] <= {1} and len(idem[1]) == 1)(dst.get(("val", (ri, ("is_idempotent",)))))
+                          or is_safe(error_classes(djf, dst, ri))) for dst in dsts)
             desc = "%s:%s:%s" % (who, "+".join(sorted(variants & RETRY)), ",".join(sorted(classes)) if len(classes) <= 6 else "%d-classes" % len(classes))
             detail = "retry decision %s reachable with is_idempotent=%s and error classes {%s}; state: %s" % (
-                kinds, "true" if idem_true else "unconstrained/false", ", ".join(sorted(classes)), df.fmt_state(st))
-            r1.instance(desc, idem_true or safe, detail, span, data={"classes": sorted(classes), "idempotent_guard": idem_true})
+                kinds, "true" if all_ok else "unconstrained/false", ", ".join(sorted(classes)), df.fmt_state(st))
+            r1.instance(desc, all_ok, detail, span, data={"classes": sorted(classes), "idempotent_guard": all_ok})
             # R2 (default policy only)
             if who == "DefaultRetrySession":
-                ser = [k for k in st if k[0] == "call" and b.term(k[1])[1].get("def", "").endswith("Consistency::is_serial")]
-                okser = any(st[k][0] == "in" and st[k][1] == frozenset([0]) for k in ser)
                 r2.instance(desc, okser, "retry site must lie in the is_serial()==false region; state: " + df.fmt_state(st), span)
             # R3
             if "RetrySameTarget" in variants:
